@@ -87,8 +87,11 @@ Definition remove_swap {A} (s : list A) (i : nat) : list A :=
 
 Record round := { rd_sample : list (N * Z); rd_victim : N * Z; rd_hits : Z }.
 
+(* [rej]: when the newcomer is turned away by the admission test, the sample it lost against and that
+   sample's smallest estimate (ghost, like [rounds]) *)
 Inductive add_result :=
 | AddOk (victims : list (N * Z)) (added : bool) (p : policy) (m : metrics) (rounds : list round)
+        (rej : option (list (N * Z) * Z))
 | AddOutOfFuel.
 
 (* the eviction loop of defaultPolicy.Add.  [orders]: for every fillSample call an enumeration of the
@@ -97,7 +100,7 @@ Fixpoint add_loop (fuel : nat) (orders : list (list N)) (est : N -> Z) (key : N)
     (p : policy) (m : metrics) (sample : list (N * Z)) (victims : list (N * Z)) (rounds : list round)
   : add_result :=
   if 0 <=? room_left p cost then
-    AddOk victims true (pol_insert p key cost) (m_add m MCostAdd (z2u64 cost)) rounds
+    AddOk victims true (pol_insert p key cost) (m_add m MCostAdd (z2u64 cost)) rounds None
   else
     match fuel with
     | O => AddOutOfFuel
@@ -105,9 +108,9 @@ Fixpoint add_loop (fuel : nat) (orders : list (list N)) (est : N -> Z) (key : N)
         let order := match orders with o :: _ => o | [] => (map_to_list (p_costs p)).*1 end in
         let sample1 := fill_sample (p_costs p) order sample in
         match min_entry est sample1 0 None with
-        | None => AddOk victims false p (m_add m MRejectSets 1) rounds
+        | None => AddOk victims false p (m_add m MRejectSets 1) rounds (Some (sample1, 9223372036854775807))
         | Some (i, mk, mc, mh) =>
-            if inc <? mh then AddOk victims false p (m_add m MRejectSets 1) rounds
+            if inc <? mh then AddOk victims false p (m_add m MRejectSets 1) rounds (Some (sample1, mh))
             else
               let '(p', m') := pol_del p m mk in
               add_loop f (tail orders) est key cost inc p' m' (remove_swap sample1 i)
@@ -121,10 +124,10 @@ Definition add_fuel (p : policy) : nat := 6 * (size (p_costs p) + 1).
 (* defaultPolicy.Add *)
 Definition pol_add (orders : list (list N)) (est : N -> Z) (p : policy) (m : metrics) (key : N) (cost : Z)
   : add_result :=
-  if p_max p <? cost then AddOk [] false p m []
+  if p_max p <? cost then AddOk [] false p m [] None
   else
     let '(has, p1, m1) := pol_update_if_has p m key cost in
-    if has then AddOk [] false p1 m1 []
+    if has then AddOk [] false p1 m1 [] None
     else add_loop (add_fuel p) orders est key cost (est key) p m [] [] [].
 
 Definition pol_update (p : policy) (m : metrics) (key : N) (cost : Z) : policy * metrics :=
